@@ -65,7 +65,7 @@ func protectedLeaf(leaf string) bool {
 		return false
 	}
 	for _, p := range []string{"G:" + r + ".ghost.", "F:" + r + ".Entry.", "F:" + r + ".dualWriter.", "F:" + r + ".logwr.", "F:" + r + ".filewr.", "F:" + r + ".handler4LogSlog.", "F:" + r + ".handlerWriter.",
-		"E:" + r + ".LogWriter", "M:map[" + r + ".Level]", "M:map[string]" + r + ".Level", "M:map[int]map[" + r + ".Level]", "M:map[string]*" + r + ".Entry.", "M:map[log/slog.Level]" + r + ".Level."} {
+		"E:" + r + ".LogWriter", "E:uint16", "M:map[" + r + ".Level]", "M:map[string]" + r + ".Level", "M:map[int]map[" + r + ".Level]", "M:map[string]*" + r + ".Entry.", "M:map[log/slog.Level]" + r + ".Level."} {
 		if strings.HasPrefix(leaf, p) {
 			return true
 		}
